@@ -32,7 +32,13 @@ func init() {
 	})
 }
 
+// c13CoverageHook / c15CoverageHook: rules added by the coverage review (c13_cov.go).
+var c13CoverageHook, c15CoverageHook func(c *Ctx)
+
 func runC13(c *Ctx) {
+	if c13CoverageHook != nil {
+		defer c13CoverageHook(c)
+	}
 	c13R1(c)
 	c13SuccessNeedsExchange(c)
 	c13R2(c)
@@ -2098,6 +2104,18 @@ func c13Seek(c *Ctx) {
 }
 
 var c13Mutants = []Mutant{
+	{Name: "mount-always-plain-http", File: "registry/remote/repository.go",
+		Old:    "\turl := buildRepositoryBlobMountURL(s.repo.PlainHTTP, s.repo.Reference, desc.Digest, fromRepo)",
+		New:    "\turl := buildRepositoryBlobMountURL(true, s.repo.Reference, desc.Digest, fromRepo)",
+		Expect: "C13.R4.scheme-option-reaches-url"},
+	{Name: "clone-drops-max-metadata-bytes", File: "registry/remote/repository.go",
+		Old: "\t\tMaxMetadataBytes:     r.MaxMetadataBytes,\n", New: "", Expect: "C13.R3.options-carried-by-clone"},
+	{Name: "resolve-generator-told-get", File: "registry/remote/repository.go",
+		Old: "\t\treturn s.generateDescriptor(resp, ref, req.Method)", New: "\t\treturn s.generateDescriptor(resp, ref, http.MethodGet)", Expect: "C13.R2.generator-method-agrees"},
+	{Name: "manifest-exists-unsupported-is-false", File: "registry/remote/repository.go",
+		Old:    "func (s *manifestStore) Exists(ctx context.Context, target ocispec.Descriptor) (bool, error) {\n\t_, err := s.Resolve(ctx, target.Digest.String())\n\tif err == nil {\n\t\treturn true, nil\n\t}\n\tif errors.Is(err, errdef.ErrNotFound) {",
+		New:    "func (s *manifestStore) Exists(ctx context.Context, target ocispec.Descriptor) (bool, error) {\n\t_, err := s.Resolve(ctx, target.Digest.String())\n\tif err == nil {\n\t\treturn true, nil\n\t}\n\tif errors.Is(err, errdef.ErrNotFound) || errors.Is(err, errdef.ErrUnsupported) {",
+		Expect: "C13.R1.exists-reflects-not-found-only"},
 	{Name: "mount-same-repository-is-noop", File: "registry/remote/repository.go",
 		Old:    "\t// We also need pull access to the source repo.\n\tfromRef := s.repo.Reference",
 		New:    "\tif fromRepo == s.repo.Reference.Repository {\n\t\treturn nil\n\t}\n\t// We also need pull access to the source repo.\n\tfromRef := s.repo.Reference",
